@@ -72,6 +72,28 @@ func buildPlan(id string, pinned map[string]string, tier string) *Plan {
 			"twisted-Edwards companions: not under contract", "numeric value of bCurveCoeff / bTwistCurveCoeff is not checked at the ring layer"}
 		p.Note = "Every branch of every Jacobian and extended-Jacobian addition, mixed addition, doubling, negation and conversion under contract returns a representative of the point prescribed by the chord-and-tangent law, for every representative of the inputs (all projective scalings), with the branch taken determined by the code's own zero/equality tests."
 		return p
+	case "C03":
+		p := &Plan{ID: id}
+		p.Units = append(p.Units, Unit{Pkg: "./ecc", Tags: "", Groups: []string{"glv"}})
+		for _, rel := range scalarMulPkgs("/repo") {
+			p.Units = append(p.Units, Unit{Pkg: "./" + rel, Tags: "", Groups: []string{"scalarmul"}, Deps: []string{rel + "/fr:conv", rel + "/fr:bigconv", "ecc:glv"}})
+		}
+		for _, pk := range sortedStrKeys(edwardsPkgs("/repo")) {
+			p.Units = append(p.Units, Unit{Pkg: pk, Tags: "", Groups: []string{"scalarmul"}})
+		}
+		p.Trusted = []string{
+			"module layer: the point types are elements of an abstract abelian group (integer indeterminates, Z-lifting); AddAssign / AddMixed / Double / DoubleAssign / Neg / Set / FromAffine / FromJacobian are interpreted as the group operations their names state (the coordinate formulas are proved against the chord-and-tangent law under C02), the package-level infinity is the neutral element",
+			"the endomorphism phi acts on the operands as multiplication by a fixed integer lambda (curve theory; assumed), and the two vectors of the precomputed lattice basis are in the kernel of (a, b) -> a + b*lambda mod r (stated as the precondition of mulGLV and of the entry points built on it; the basis is computed at package initialisation by ecc.PrecomputeLattice, which is not under contract)",
+			"math/big integers are mathematical integers; Bytes() yields the big-endian bytes of |x|; Element.SetBigInt (sync.Pool, big.Int.Bits) is an assumed contract: z = v mod r",
+			"arithmetic lemma x div a = b*(x div ab) + (x div a) mod b: every instance used is proved as its own obligation"}
+		p.Assumptions = []string{"where the code reduces a scalar modulo the group order (SetBigInt) the clause states the result with the reduced scalar bigmod(|s|, r) and the sign of s: this is the s-fold multiple for operands of order dividing r (the property's own hypothesis: points of the prime-order subgroup)",
+			"a1, a2, s1, s2 of JointScalarMultiplication are never written (frame proved), so aliasing among them is covered by equal values (alias none)"}
+		p.NotCovered = []string{"BatchScalarMultiplication (goroutines, signed-digit recoding), the fixed-base tables, mulBySeed / cofactor clearing chains",
+			"stark-curve JointScalarMultiplication / JointScalarMultiplicationBase (hand-written variants); bandersnatch scalarMulGLV and the exported entry points that go through it",
+			"agreement of the variants with each other is a consequence of each clause being the same multiple, for operands of order dividing r; it is not stated as a separate clause",
+			"that lambda is an eigenvalue of phi and that the lattice basis has the stated property: number theory / initialisation code, not proved"}
+		p.Note = "mulWindowed returns the s-fold multiple of its operand for every integer s (negative, zero, of any length) in every abelian group; JointScalarMultiplication(Base) returns the combination with both scalars reduced modulo r, for all integers; ecc.SplitScalar returns (s, 0) minus an integer combination of the two lattice vectors; mulGLV and the exported ScalarMultiplication / ScalarMultiplicationBase entry points of G1 and G2 (Jacobian and affine) return (k0 mod r)*q + (k1 mod r)*lambda*q with k0 + lambda*k1 = s modulo r, for every integer s. Twisted Edwards (7 companion curves and bandersnatch): scalarMulWindowed of the projective and extended types returns the scalar-fold multiple for every integer scalar (bit-by-bit double-and-add over the words of |scalar|, the sign handled by negating the operand), and so do the exported ScalarMultiplication of the projective, extended and affine types where they go through it. Every 2-bit window / every bit of every loop is its own obligation."
+		return p
 	case "C07":
 		p := &Plan{ID: id}
 		for _, pk := range marshalPkgs("/repo") {
